@@ -1185,7 +1185,7 @@ class SymEx:
             return ('method', b, name)
         if isinstance(b, tuple) and b and b[0] == 'regex' and name in ('fullmatch', 'match', 'search'):
             return ('regexmethod', b[1], name)
-        if isinstance(b, Opaque) and b.text in ('itertools', 'functools', 'dict', 'collections', 're'):
+        if isinstance(b, Opaque) and b.text in ('itertools', 'functools', 'dict', 'collections', 're', 'operator'):
             return Opaque('%s.%s' % (b.text, name))
         if isinstance(b, Opaque) and b.text == 'itertools.chain' and name == 'from_iterable':
             return Opaque('itertools.chain.from_iterable')
@@ -1333,6 +1333,26 @@ class SymEx:
             return self.method(e, f[1], f[2], args, kw, st, func)
         if isinstance(f, tuple) and f[0] == 'regexmethod':
             pass
+        if isinstance(f, Opaque) and f.text in ('operator.attrgetter', 'attrgetter') and len(args) == 1 and not kw and \
+                isinstance(args[0], Const) and isinstance(args[0].v, str) and '.' not in args[0].v:
+            return [(st, ('attrgetter', args[0].v))]
+        if isinstance(f, Opaque) and f.text in ('operator.itemgetter', 'itemgetter') and len(args) == 1 and not kw and isinstance(args[0], Const):
+            return [(st, ('itemgetter', args[0]))]
+        if isinstance(f, tuple) and f and f[0] == 'attrgetter' and len(args) == 1 and not kw:
+            v = self.attr(args[0], f[1], st, func, e)
+            if isinstance(v, tuple) and v and v[0] == 'bound' and v[1].is_property and self.depth < self.max_depth:
+                return self._inline(v[1], [v[2]], {}, st, True)
+            return [(st, v)]
+        if isinstance(f, tuple) and f and f[0] == 'itemgetter' and len(args) == 1 and not kw:
+            sub = ast.Subscript(value=ast.Name(id='_ig_seq', ctx=ast.Load()), slice=ast.Name(id='_ig_key', ctx=ast.Load()), ctx=ast.Load())
+            ast.copy_location(sub, e)
+            ast.fix_missing_locations(sub)
+            st.stack.append(st.env)
+            st.env = {'_ig_seq': args[0], '_ig_key': f[1]}
+            res = self.ev(sub, st, func)
+            for s2, _ in res:
+                s2.env = s2.stack.pop()
+            return res
         if isinstance(f, Opaque) and f.text == 'itertools.chain.from_iterable' and args:
             seq = self.as_sequence(args[0])
             if seq is not None and all(self.as_sequence(x) is not None for x in seq):
